@@ -97,6 +97,7 @@ type c06Coster struct {
 	rd      bytes.Reader
 	m0, m1  runtime.MemStats
 	buf     []byte
+	step    *atomic.Int64
 }
 
 func (cs *c06Coster) measure(g c06Cfg, src []byte) (m c06CostM, panicked any) {
@@ -113,6 +114,9 @@ func (cs *c06Coster) measure(g c06Cfg, src []byte) (m c06CostM, panicked any) {
 			delete(cs.parsers, pk)
 		}
 	}()
+	if cs.step != nil {
+		cs.step.Add(1) // progress for the watchdog: one measurement = one call
+	}
 	runtime.ReadMemStats(&cs.m0)
 	t0 := c06ThreadCPU()
 	c06ParseOnly(p, g.Entry, &cs.rd)
@@ -232,23 +236,25 @@ func c06CostChild(c *vc.Ctx) bool {
 	cfgs := c06CostCfgs()
 	cs := &c06Coster{parsers: map[int64]*syntax.Parser{}}
 	// watchdog: a probe that makes no progress for the hang limit
-	var cur atomic.Int64
+	var cur, step atomic.Int64
+	cs.step = &step
 	var curCase atomic.Pointer[c06Case]
+	limit := 3 * c06HangLimit // inputs here are up to ~40 KiB and deeply nested
 	go func() {
 		last, since := int64(-1), time.Now()
 		for {
 			time.Sleep(time.Second)
 			v := cur.Load()
-			if v != last {
-				last, since = v, time.Now()
+			if st := step.Load(); st != last {
+				last, since = st, time.Now()
 				continue
 			}
-			if time.Since(since) > c06HangLimit {
+			if time.Since(since) > limit {
 				t := curCase.Load()
 				g := cfgs[t.Cfg]
 				enc.Encode(c06CostLine{Case: t, Hang: true, Index: int(v >> 8),
 					Key: fmt.Sprintf("hang pumped [%s] %q (%q)^k %q", g, t.U, t.V, t.X),
-					Msg: fmt.Sprintf("%s of %q+%q*k+%q (k<=4096) with %s does not return within %s", c06Entries[g.Entry], t.U, t.V, t.X, g, c06HangLimit)})
+					Msg: fmt.Sprintf("%s of %q+%q*k+%q (k<=4096) with %s does not return within %s", c06Entries[g.Entry], t.U, t.V, t.X, g, limit)})
 				out.Flush()
 				os.Exit(3)
 			}
